@@ -18,6 +18,29 @@ CHECKS = {
    note="Trusted: the harness's own cycle check (iterated deletion of source objects). Inputs are partial functions with all objects present in the object table, as the generated caller guarantees."),
 }
 
+EXPL = "explicit-state BFS over API histories of the real generated module (state = dump of all private fields, rebuilt by replay), "
+EXPL_NOTE = "Trusted: the reference semantics on the source AST (refsem.rs + eqlparse.py), the generated glue (textual inclusion, read-only), std collections. Programs are the curated corpus K; bounds (depth, elements, caps hit) are in the evidence."
+CHECKS.update({
+ "C01": dict(level="model_checking", design="4/C01", engine="models", technique=EXPL + "oracle: naive re-evaluation of the source rules on the closed model",
+   text="Every history of new_/insert_/define_/equate_/close calls up to the bound is executed on the code the current compiler generates for each corpus theory; after every close() the dumped model is checked against every control-flow path of every source rule (no match may lack its conclusion) and for single-valued functions, and close() must return within the iteration bound.", note=EXPL_NOTE),
+ "C02": dict(level="model_checking", design="4/C02", engine="models", technique=EXPL + "oracle: isomorphism modulo caller-created elements with a reference naive chase",
+   text="For every explored history the closed model must be isomorphic, by the unique map fixing the caller's elements and extended along function graphs, to the reference chase of the asserted facts: no spurious tuple, equality or element, none missing.", note=EXPL_NOTE),
+ "C03": dict(level="model_checking", design="4/C03", engine="models", technique=EXPL + "differential oracle: histories with the same assertion set must close to isomorphic models; close is idempotent",
+   text="All explored histories are grouped by the set of facts they assert (permutations, interleaved closes, re-assertions); every member's closed model must be isomorphic modulo handles to the group's first member, and a second close() must change neither the public dump nor the id counters. No reference semantics involved.", note=EXPL_NOTE),
+ "C04": dict(level="model_checking", design="4/C04", engine="models", technique=EXPL + "invariants on public queries and on all private index copies at every return of close/close_until and at every condition evaluation",
+   text="In every explored state, right after close()/close_until() and each time close_until evaluates its condition: iterators yield distinct canonical tuples, iter_<type> one representative per class, point queries agree with iterators for all tuples of allocated ids, enum cases agree with constructor graphs; all order copies of an age hold the same set, new and old are disjoint, diagonal copies equal the filtered projection, the union equals the public iterator, every row is listed in the element index of each argument.", note=EXPL_NOTE),
+ "C05": dict(level="model_checking", design="4/C05", engine="models", technique=EXPL + "oracle on every transition: driver-side union-find and tuple sets",
+   text="On every transition of the search the return value and the visible effect of the API call are compared with a reference kept by the driver: are_equal_ is exactly the last closed state's equality plus the equate_ calls since, root_ is an idempotent representative, and (while no equate_ happened since the last close) inserted tuples are visible once, define_ returns the existing value or a fresh id, new_ a fresh distinct id.", note=EXPL_NOTE),
+ "C06": dict(level="model_checking", design="4/C06", engine="models", technique=EXPL + "liveness made checkable by counting iterations through the close_until condition; id counters before/after",
+   text="For every corpus theory without `!` and every explored history, close() must return within an iteration bound no correct surjective closure can reach, allocate no element id and not increase the number of classes of any type.", note=EXPL_NOTE),
+ "C07": dict(level="model_checking", design="4/C07", engine="models", technique=EXPL + "alphabet extended with close_until(cond) for a finite family of conditions incl. stop-at-k-th-evaluation; oracles: contract, homomorphism into the chase, resumption",
+   text="Histories additionally contain close_until with every ground condition over the caller's elements, true/false and stop-at-the-k-th-evaluation, followed by further assertions and closes. true => condition holds; false => closed and condition false; every stopping state maps homomorphically into the reference chase; after any continuation ending in close() the model is the free model and equals that of the direct history.", note=EXPL_NOTE),
+ "C15": dict(level="model_checking", design="4/C15", engine="models", technique=EXPL + "with new_<enum>(case) in the alphabet; oracle on every enum element of every closed state",
+   text="For the corpus theories with enums, in every closed state every enum element (iterated or handed out) destructures without panic into a constructor application that evaluates back to it, and new_<enum>(case) results list the case. Static half: scan of the generated API for define_/new_ functions that could create enum elements without a constructor.", note=EXPL_NOTE),
+ "C17": dict(level="model_checking", design="4/C17", engine="models", technique=EXPL + "on theories with a model declaration; oracles of C01/C02/C03 with built-in inheritance rules",
+   text="For the corpus theories with a model declaration, histories create objects, morphisms, dom/cod, member facts and closes in every order (acyclic morphism graphs only); the closed model must satisfy all rules including inheritance along morphisms, be the reference chase, and not depend on whether morphisms arrived before or after facts and closes.", note=EXPL_NOTE),
+})
+
 PENDING = {}
 
 def main():
@@ -53,6 +76,8 @@ def main():
             "add_only": True,
         },
         "engines": [
+            {"name": "models", "path": "/verif/engine/models", "serves_properties": ["C01", "C02", "C03", "C04", "C05", "C06", "C07", "C15", "C17"],
+             "kind_free_text": "Rust harness compiled together with the modules the current eqlog compiler generates for the corpus; level-synchronous BFS over API histories with replay, reference semantics in refsem.rs"},
             {"name": "containers", "path": "/verif/engine/containers", "serves_properties": ["C08", "C14", "C18"],
              "kind_free_text": "Rust harness linked against /repo/eqlog-runtime: explicit-state BFS over the real containers / exhaustive input enumeration"},
         ],
